@@ -1,5 +1,6 @@
 """C19 L2CAP fragmentation and reassembly are exact and memory safe (bounds and state)."""
 from .lib.match import *
+from .lib.linear import Lin, lin
 
 SELECT = r'^bluetoe::link_layer::ll_l2cap_sdu_buffer::'
 UNITS = lambda u: u in ('w_inst_ll', 'w_inst_l2cap') or u.startswith('t_link_layer_ll_l2cap_sdu')
@@ -81,6 +82,21 @@ def run(chk, facts, tier):
                 ats = guard_atoms(fn, r)
                 ok = ok and has_atom(ats, lambda x: is_name(x, 'receive_buffer_used_'), {'!='}, lambda o: cval(o) == 0) and has_atom(ats, lambda x: is_name(x, 'receive_size_'), {'=='}, lambda o: cval(o) == 0)
         chk.instance('deliver-complete-only', fn, '%d returns of the reassembly buffer' % n, ok and n >= 1, '' if ok and n >= 1 else 'an incomplete SDU can be delivered', key='deliver')
+        # the unfragmented shortcut hands the received PDU itself out: only if it holds exactly the announced SDU
+        for r in fn.returns():
+            v = ret_value(r)
+            if v is None or not is_name(v, 'pdu') or not any(op == '==' and not isinstance(rr, int) and not isinstance(l, int) and 'pdu_type_start' in (strip_casts(rr).n, strip_casts(l).n) for l, op, rr in guard_atoms(fn, r)):
+                continue
+            exact = False
+            for l, op, rr in guard_atoms(fn, r):
+                if op != '==' or isinstance(l, int) or isinstance(rr, int):
+                    continue
+                for a, b in ((l, rr), (rr, l)):
+                    la = lin(fn, a)
+                    if is_name(b, 'body_size') and la is not None and la.t.get('l2cap_size') == 1 and set(la.t) <= {'l2cap_size', 'l2cap_header_size'} and (la.c + 4 * la.t.get('l2cap_header_size', 0)) == 4:
+                        exact = True
+            chk.instance('deliver-complete-only', fn, 'start fragment delivered directly only if l2cap_size + 4 == body_size', exact,
+                         '' if exact else 'a start fragment that is longer (or shorter) than the SDU it announces is delivered as it is: the SDU has not the length its header announces', node=r, key='unfragmented')
     for fn in variants(facts, SB + 'free_ll_l2cap_received', chk):
         rs = [st for tgt, op, val, st in stores(fn.body) if is_name(tgt, 'receive_buffer_used_') and cval(val) == 0]
         fr = fn.body.calls('free_received')
